@@ -2271,6 +2271,16 @@ def _extract_block(body_toks, frm, to, a, rep):
     if len(hits) != 1:
         raise AnchorLost(f"block_from {frm!r}: {len(hits)} matches")
     s = _stmt_start_before(body_toks, hits[0][0], 1)
+    if a.get("block_until"):
+        # the block ends where the statement holding this anchor STARTS (the anchor statement itself is not part of it):
+        # the text of the block's own last statement may change freely
+        hu = [h for h in _find_seq_any(body_toks, pat_tokens(a["block_until"])) if h[0] > hits[0][1]]
+        if not hu:
+            raise AnchorLost(f"block_until {a['block_until']!r}: no match after block_from")
+        e = _stmt_start_before(body_toks, hu[0][0], 1)
+        rep.append(("R0", f"inline block from {frm!r} until (excluding) {a['block_until']!r} wrapped as `{a['wrap']}`"))
+        tail = a.get("tail", "")
+        return [T(PUNCT, "{"), T(WS, "\n")] + body_toks[s:e] + [T("raw", "\n" + tail + "\n"), T(PUNCT, "}")]
     if to:
         pat2 = pat_tokens(to)
         hits2 = [h for h in _find_seq_any(body_toks, pat2) if h[0] >= s]
